@@ -3362,6 +3362,8 @@ def c17_programs(rng, tier) -> List[Item]:
 def c17_oracle(prog, meta, impl, model):
     out = []
     for i, j in meta.get("faulty", []):
+        if i >= len(impl) or j >= len(impl):
+            continue            # (a shrunk replay: the pair is not part of it)
         if not same_value_or_both_fail(impl[i], impl[j]):
             out.append(("with an unreliable cache backend an evaluation does not return the value of its options", i,
                         {"options": prog["ops"][i]["o"], "with_faulty_cache": impl[i].get("r"), "expected": impl[j].get("r"),
